@@ -1,20 +1,38 @@
-"""Tie of the per-index engine model (coq/Engine/IndexedEval.v) to the REAL index fields of the generated program struct.
+"""Tie of the per-index engine model (coq/Engine/IndexedEval.v + Engine/IndexedHistory.v) to the REAL index fields of the generated
+program struct, over HISTORIES of one program value.
 
-For generated programs (serial `ascent!`, plain relations) the PROG harness runs histories  set F0; run; push F1; run  and prints,
-after every run(), the content of EVERY physical index field of every relation (`<rel>_indices_<cols>` / `<rel>_indices_none`),
-read only through the public traits the generated code itself uses (ToRelIndex::to_rel_index, RelIndexReadAll::iter_all,
-RelIndexRead::index_get / len_estimate).  The same histories are evaluated in Coq with IndexedEval.run_script_idx on the plan
-dumped by the real front end, and compared index by index:
+For generated programs (serial `ascent!`, plain relations; two thirds with `#![generate_run_timeout]`, where run() is
+run_timeout(Duration::MAX), the others with the plain run() body) the PROG harness runs histories made of
 
-  model_differs        key set / per-key value multiset / len_estimate of an index field, or the rows of a relation, differ from
-                       the stored indices of the model; plan_idx_ok / fact_idx_ok false; model out of fuel
-  impl_violates_spec   (python oracle on the real data only) an index field does not hold exactly the rows of the relation's Vec
+  set F        the Vec fields of the relations are assigned (first step)
+  push F       rows appended to the Vec fields
+  over G       the Vec fields of the relations in G are OVERWRITTEN with other rows (same / smaller / larger count, a permutation of
+               the same rows, nothing), the others untouched - what a caller does who re-uses a program value for another query
+  run          p.run()
+  timeout k    p.run_timeout(..) under the hook's virtual clock: the k-th deadline check finds the timeout expired
+
+(kinds: push = set; run; push; run / overwrite = set; run; over; run / resume = set; timeout; [timeout;] run /
+ rerun_timeout = set; run; push|over; timeout; run / timeout_overwrite = set; timeout; over; run)
+and prints, around EVERY call of run() / run_timeout(), the rows before the call, the returned flag, the rows after it and the content of
+EVERY physical index field of every relation (`<rel>_indices_<cols>` / `<rel>_indices_none`), read only through the public traits the
+generated code itself uses (ToRelIndex::to_rel_index, RelIndexReadAll::iter_all, RelIndexRead::index_get / len_estimate).  The same
+histories are evaluated in Coq with IndexedHistory.run_history_idx on the plan dumped by the real front end, and compared:
+
+  impl_violates_spec   (specification oracle, computed from the REAL rows found before the call; positive programs)
+                       after run() / run_timeout() == true the relations are not the least model (Coq naive_fix, proved correct:
+                       c01_oracle_correct) of the rows present when the call started; the rows present before the call are not an
+                       unmodified prefix; a row was added twice / again; after run_timeout() == false a row is not derivable;
+                       (all programs) after a completed call an index field does not hold exactly the rows of the relation's Vec
                        (with multiplicity for hash indices, as a set for the full index), or index_get disagrees with iter_all
+  model_differs        returned flag / key set / per-key value multiset / len_estimate of an index field / the rows of a relation differ
+                       from the model's (after interrupted calls too: the index fields the interrupted SCC had moved out are empty,
+                       the others intact); plan_idx_ok / fact_idx_ok false; model out of fuel
 
   python3 -m gen.indexed_tie quick|thorough|corpus [seed]        (exit code 1 on any mismatch)
-  run_tie(tier, seed) -> dict(evaluations, distinct_nontrivial, mismatches, coverage, rule)   for the property modules (C13 / C19)
+  run_tie(tier, seed) -> dict(evaluations, distinct_nontrivial, mismatches, coverage, rule)   for the property module (C01)
 
-corpus/INDEXED.jsonl (one case per line: name, note, prog = program AST of gen/dl.py, pairs = [[F0, F1]..]) runs first on every invocation.
+corpus/INDEXED.jsonl (one case per line: name, note, prog = program AST of gen/dl.py, pairs = [[F0, F1]..] and / or
+hists = [[step..]..] with steps ["set", F] ["push", F] ["over", G] ["run"] ["timeout", k]) runs first on every invocation.
 """
 import collections
 import json
@@ -25,9 +43,11 @@ import time
 from . import dl, gen_dl, lib, prog
 
 PRELUDE = ("From Coq Require Import List ZArith Bool.\n"
-           "From AV Require Import Engine.Core Engine.Sem Engine.Eval Engine.Vocab Engine.IndexedEval.\n"
+           "From AV Require Import Engine.Core Engine.Sem Engine.Eval Engine.Vocab Engine.IndexedEval Engine.IndexedHistory.\n"
            "Import ListNotations.\nOpen Scope Z_scope.\n")
 FUEL = 200
+ATTRS = ["#![generate_run_timeout]"]
+RETFMT = "snaps.push(format!(\"{{\\\"__ret\\\":[[\\\"{}\\\"]]}}\", __r));"
 CORPUS = os.path.join(lib.VERIF, "corpus", "INDEXED.jsonl")
 MAX_ARITY = 4
 PRINT_PROGRAMS, PRINT_PER_PROGRAM = 8, 4
@@ -251,9 +271,138 @@ def program_ok(p):
     return all(k == "rel" and a <= MAX_ARITY for _, a, k in p["rels"])
 
 
+def positive(p):
+    """no aggregate / negation: the least-model oracle of C01 applies"""
+    return not (gen_dl.program_features(p) & {"agg", "neg"})
+
+
+# ------------------------------------------------------------------ histories
+
+def body_rels(p):
+    out = []
+    for r in p["rules"]:
+        for it in r["body"]:
+            n = it[1] if it[0] in ("clause", "neg") else (it[4] if it[0] == "agg" else None)
+            if n is not None and n not in out:
+                out.append(n)
+    return out
+
+
+def head_rels(p):
+    return sorted({h[0] for r in p["rules"] for h in r["heads"]})
+
+
+def other_rows(rng, arity, n, avoid):
+    """n distinct rows over the value domain, as different from `avoid` as the domain allows"""
+    if arity == 0:
+        return [()] if n else []
+    out, seen = [], set()
+    space = len(gen_dl.DOM) ** arity
+    n = min(n, space)
+    tries = 0
+    while len(out) < n and tries < 40 * n + 40:
+        tries += 1
+        t = tuple(rng.choice(gen_dl.DOM) for _ in range(arity))
+        if t in seen or (t in avoid and tries < 20 * n):
+            continue
+        seen.add(t)
+        out.append(t)
+    return out
+
+
+def overwrite_rows(rng, arity, cur):
+    """(mode, rows): other contents for a relation that holds the rows `cur` (count known: a relation no rule writes)"""
+    cur = list(cur)
+    dist = list(dict.fromkeys(cur))
+    n = len(dist)
+    modes = ["same_count", "same_count", "same_count", "shift", "shift", "swap_cols", "permute", "smaller", "smaller", "larger", "larger", "empty"]
+    mode = rng.choice(modes)
+    if n == 0 and mode in ("same_count", "shift", "swap_cols", "permute", "smaller", "empty"):
+        mode = "larger"
+    if arity == 0:
+        return ("empty", []) if cur else ("larger", [()])
+    if mode == "same_count":
+        rows = other_rows(rng, arity, n, set(dist))
+    elif mode == "shift":
+        c = rng.randrange(arity)
+        d = rng.choice([1, 1, 2, 3])
+        rows = [tuple(((v + d) % len(gen_dl.DOM)) if i == c else v for i, v in enumerate(t)) for t in dist]
+    elif mode == "swap_cols":
+        rows = [tuple(reversed(t)) for t in dist] if arity > 1 else other_rows(rng, arity, n, set(dist))
+    elif mode == "permute":
+        rows = list(dist)
+        rng.shuffle(rows)
+    elif mode == "smaller":
+        k = rng.randrange(0, n) if n > 1 else 0
+        rows = rng.sample(dist, k) if rng.random() < 0.5 else other_rows(rng, arity, k, set(dist))
+    elif mode == "larger":
+        rows = (dist if rng.random() < 0.5 else other_rows(rng, arity, n, set(dist))) + other_rows(rng, arity, rng.choice([1, 2, 4]), set(dist))
+        rows = list(dict.fromkeys(rows))
+    else:
+        rows = []
+    return mode, rows
+
+
+def gen_over(rng, p, f0):
+    """({rel: rows}, [modes]): the caller re-uses the program value: 1-2 relations the rules READ get other contents (preferably
+    relations no rule writes, whose row count at that point is known: |F0[rel]|), the derived relations are sometimes cleared"""
+    heads = head_rels(p)
+    ar = {n: a for n, a, _ in p["rels"]}
+    reads = body_rels(p) or [n for n, _, _ in p["rels"]]
+    inputs = [n for n in reads if n not in heads]
+    g, modes = {}, []
+    pool = inputs if (inputs and rng.random() < 0.85) else reads
+    for rel in rng.sample(pool, min(len(pool), rng.choice([1, 1, 2]))):
+        mode, rows = overwrite_rows(rng, ar[rel], f0.get(rel, []))
+        if rel in heads:
+            mode = "derived_" + mode
+        g[rel] = rows
+        modes.append(mode)
+    u = rng.random()
+    if u < 0.4:
+        for h in heads:
+            g.setdefault(h, [])
+        modes.append("results_cleared")
+    elif u < 0.55:
+        for h in heads:
+            g.setdefault(h, list(f0.get(h, [])))
+        modes.append("results_reset")
+    return g, modes
+
+
+TIMEOUT_KINDS = ["resume", "rerun_timeout", "timeout_overwrite", "resume", "timeout_overwrite", "rerun_timeout"]
+
+
+def gen_hist(rng, p, kind, k):
+    if kind == "push":
+        f0, f1 = gen_pair(rng, p, k)
+        return dict(kind=kind, steps=[["set", f0], ["run"], ["push", f1], ["run"]])
+    style = rng.choice(["sparse_chain", "mixed", "small", "dense"] if kind != "overwrite" else ["small", "mixed", "sparse_chain", "mixed"])
+    f0 = gen_dl.gen_input(rng, p["rels"], style=style if rng.random() < 0.85 else "some_empty")[0]
+    if rng.random() < 0.15:
+        f0 = with_duplicates(rng, f0)
+    if kind == "overwrite":
+        g, modes = gen_over(rng, p, f0)
+        return dict(kind=kind, modes=modes, steps=[["set", f0], ["run"], ["over", g], ["run"]])
+    if kind == "resume":
+        ks = [rng.choice([1, 1, 2, 3])] + ([rng.choice([1, 2])] if rng.random() < 0.3 else [])
+        return dict(kind=kind, steps=[["set", f0]] + [["timeout", x] for x in ks] + [["run"]])
+    if kind == "rerun_timeout":
+        if rng.random() < 0.5:
+            mid, modes = ["push", {r: ts for r, ts in gen_dl.gen_input(rng, p["rels"], style="small")[0].items() if ts}], ["push"]
+        else:
+            g, modes = gen_over(rng, p, f0)
+            mid = ["over", g]
+        return dict(kind=kind, modes=modes, steps=[["set", f0], ["run"], mid, ["timeout", rng.choice([1, 1, 2])], ["run"]])
+    if kind == "timeout_overwrite":
+        g, modes = gen_over(rng, p, f0)
+        return dict(kind=kind, modes=modes, steps=[["set", f0], ["timeout", rng.choice([1, 1, 2, 3])], ["over", g], ["run"]])
+    raise ValueError(kind)
+
+
 def gen_cases(tier, seed):
     rng = lib.rng_for(seed, "INDEXED")
-    n = {"corpus": 0, "quick": 96}.get(tier, 520)
+    n = {"corpus": 0, "quick": 96}.get(tier, 400)
     cases = []
     i = 0
     while len(cases) < n:
@@ -269,16 +418,58 @@ def gen_cases(tier, seed):
             p = gen_multi_head(rng)
         if not program_ok(p):
             continue
-        npairs = 2 if (tier == "quick" or len(cases) % 2) else 3
-        pairs = [gen_pair(rng, p, k) for k in range(npairs)]
-        cases.append(dict(id="ix_%d" % len(cases), family=fam, prog=dict(rels=p["rels"], rules=p["rules"]), pairs=pairs))
+        c = len(cases)
+        # with #![generate_run_timeout] run() IS run_timeout(Duration::MAX); without it run() has its own generated body: a third of
+        # the programs is compiled without the attribute (histories push / overwrite only) so that both bodies are exercised
+        with_timeout = (c % 3 != 1)
+        if with_timeout:
+            t = c - c // 3
+            kinds = ["push" if t % 2 == 0 else "overwrite", TIMEOUT_KINDS[t % len(TIMEOUT_KINDS)], TIMEOUT_KINDS[(t + 1) % len(TIMEOUT_KINDS)]]
+        else:
+            kinds = ["push", "overwrite", "overwrite"]
+        if tier != "quick":
+            kinds.append(rng.choice(["push", "overwrite"] + (TIMEOUT_KINDS if with_timeout else [])))
+        hists = [gen_hist(rng, p, kind, k) for k, kind in enumerate(kinds)]
+        cases.append(dict(id="ix_%d" % c, family=fam, prog=dict(rels=p["rels"], rules=p["rules"]), hists=hists))
     return cases
+
+
+def uses_timeout(c):
+    return any(st[0] == "timeout" for h in c["hists"] for st in h["steps"])
 
 
 def _tuplify(x):
     if isinstance(x, list):
         return tuple(_tuplify(y) for y in x)
     return x
+
+
+def _rows(d):
+    return {r: [tuple(t) for t in ts] for r, ts in d.items()}
+
+
+def prog_from_json(o):
+    """program AST after a JSON round trip; items are tuples whose list-valued fields (args, conds, bound) the renderers only iterate"""
+    return dict(rels=[tuple(r) for r in o["rels"]], rules=[dict(heads=[(h[0], [_tuplify(t) for t in h[1]]) for h in r["heads"]],
+                                                                body=[_tuplify(it) for it in r["body"]]) for r in o["rules"]])
+
+
+def steps_from_json(steps):
+    return [[st[0]] + ([_rows(st[1])] if st[0] in ("set", "push", "over") else list(st[1:])) for st in steps]
+
+
+def replay_case(case):
+    """re-run the history of a stored mismatch (case = the `case` field of a replay file) -> list of mismatches"""
+    c = dict(id="replay", family=case.get("family", "replay"), prog=prog_from_json(case["prog_ast"]),
+             hists=[dict(kind=case.get("history_kind", "replay"), steps=steps_from_json(case["history"]))])
+    results, _ = run_cases([c], "indexed_replay")
+    stats = collections.Counter()
+    mism = []
+    for r in results:
+        if r["skipped"]:
+            r["model"] = None
+        mism += compare_result(r, stats)
+    return mism, stats
 
 
 def load_corpus():
@@ -290,11 +481,11 @@ def load_corpus():
         if not line or line.startswith("#"):
             continue
         o = json.loads(line)
-        p = dict(rels=[tuple(r) for r in o["prog"]["rels"]], rules=[dict(heads=[(h[0], [_tuplify(t) for t in h[1]]) for h in r["heads"]],
-                                                                        body=[_tuplify(it) for it in r["body"]]) for r in o["prog"]["rules"]])
-        # items are tuples whose list-valued fields (args, conds, bound) the renderers only iterate: tuples are fine
-        pairs = [({r: [tuple(t) for t in ts] for r, ts in a.items()}, {r: [tuple(t) for t in ts] for r, ts in b.items()}) for a, b in o["pairs"]]
-        cases.append(dict(id="ixc_%s" % o.get("name", ln), family="corpus", prog=p, pairs=pairs))
+        p = prog_from_json(o["prog"])
+        hists = [dict(kind="push", steps=[["set", _rows(a)], ["run"], ["push", _rows(b)], ["run"]]) for a, b in o.get("pairs", [])]
+        for steps in o.get("hists", []):
+            hists.append(dict(kind="corpus", steps=steps_from_json(steps)))
+        cases.append(dict(id="ixc_%s" % o.get("name", ln), family="corpus", prog=p, hists=hists))
     return cases
 
 
@@ -316,25 +507,65 @@ def coq_decls(dump, R):
     return dl.coq_list(ds)
 
 
-def model_expr(p, dump, pairs):
-    """ONE Coq expression per program: (plan_idx_ok, all facts declared, [history per pair])"""
+def calls_of(steps):
+    """the run() / run_timeout() calls of a history: [('run', None) | ('timeout', k)]"""
+    return [(st[0], st[1] if st[0] == "timeout" else None) for st in steps if st[0] in ("run", "timeout")]
+
+
+def script_of(steps, dstep):
+    """PROG script; per call four snapshots: rows before, returned flag, rows after, every index field"""
+    sc = []
+    for st in steps:
+        if st[0] in ("set", "over"):
+            sc.append(("set", st[1]))          # prog.py's `set` assigns exactly the listed Vec fields
+        elif st[0] == "push":
+            sc.append(("push", st[1]))
+        elif st[0] == "run":
+            sc += [("snap",), ("run",), ("raw", 'snaps.push("{\\"__ret\\":[[\\"true\\"]]}".to_string());'), ("snap",), dstep]
+        elif st[0] == "timeout":
+            sc += [("snap",), ("raw", "ascent::verif_hooks::arm_clock(true); let __r = p.run_timeout(std::time::Duration::from_secs(%d)); ascent::verif_hooks::arm_clock(false); %s" % (st[1], RETFMT)),
+                   ("snap",), dstep]
+        else:
+            raise ValueError(st)
+    return sc
+
+
+def coq_steps(steps, p, R, allf):
+    out = []
+    for st in steps:
+        if st[0] in ("set", "over"):
+            fs = facts_of_input(st[1], p["rels"])
+            allf += fs
+            out.append("HSet %s %s" % (dl.cnats(R(n) for n, _, _ in p["rels"] if n in st[1]), dl.coq_facts(fs, R)))
+        elif st[0] == "push":
+            fs = facts_of_input(st[1], p["rels"])
+            allf += fs
+            out.append("HPush %s" % dl.coq_facts(fs, R))
+        elif st[0] == "run":
+            out.append("HRun")
+        else:
+            out.append("HTimeout %s" % dl.cnat(st[1]))
+    return dl.coq_list(out)
+
+
+def model_expr(p, dump, hists):
+    """ONE Coq expression per program: (plan_idx_ok, all facts declared, [history per hist])"""
     R = dl.Names()
     for name, _, _ in p["rels"]:
         R(name)
     plan, _ = dl.coq_plan(dump, R)
     decls = coq_decls(dump, R)
     allf, hs = [], []
-    for f0, f1 in pairs:
-        a, b = facts_of_input(f0, p["rels"]), facts_of_input(f1, p["rels"])
-        allf += a + b
-        hs.append("run_script_idx std_interp std_swap %d%%nat pl [IPush %s; IRun; IPush %s; IRun] (init_istate ds [])" % (FUEL, dl.coq_facts(a, R), dl.coq_facts(b, R)))
+    for h in hists:
+        hs.append("run_history_idx std_interp std_swap %d%%nat pl %s (init_istate ds [])" % (FUEL, coq_steps(h["steps"], p, R, allf)))
+    allf = list(dict.fromkeys(allf))
     e = "let pl := %s in let ds := %s in (plan_idx_ok ds pl, forallb (fact_idx_ok ds) %s, %s)" % (plan, decls, dl.coq_facts(allf, R), dl.coq_list(hs))
     inv = {v: k for k, v in R.d.items()}
-    return e, inv
+    return e, inv, R
 
 
 def run_cases(cases, tag, coq_timeout=60):
-    """-> list of result dicts (case, text, dump, impl, model, ...)"""
+    """-> list of result dicts (case, text, dump, impl, model, spec, ...)"""
     texts = {c["id"]: dl.rust_program_text(c["prog"]) for c in cases}
     t0 = time.time()
     dumps = prog.front_run([(c["id"], "ascent", texts[c["id"]]) for c in cases])
@@ -347,34 +578,64 @@ def run_cases(cases, tag, coq_timeout=60):
         if any(r["lattice"] for r in d["relations"]):
             continue
         dstep = dump_step(d["relations"])
-        scripts = [[("set", f0), ("run",), ("snap",), dstep, ("push", f1), ("run",), ("snap",), dstep] for f0, f1 in c["pairs"]]
-        jobs.append(dict(id=c["id"], text=texts[c["id"]], macro="ascent", rels=c["prog"]["rels"], scripts=scripts, pre=RUST_PRE))
-    impl = prog.build_and_run(tag, jobs, nbins=min(lib.NCPU, max(1, len(jobs) // 3))) if jobs else {}
+        scripts = [script_of(h["steps"], dstep) for h in c["hists"]]
+        jobs.append(dict(id=c["id"], text=texts[c["id"]], attrs=ATTRS if uses_timeout(c) else [], macro="ascent", rels=c["prog"]["rels"], scripts=scripts, pre=RUST_PRE))
+    impl = prog.build_and_run(tag, jobs, nbins=min(lib.NCPU, max(1, len(jobs) // 3)), features=("verif_hooks",)) if jobs else {}
     t2 = time.time()
     groups, gids, invs, parse_errors = [], [], {}, {}
+    sgroups, sgids, skeys = [], [], {}
     for c in cases:
         d = dumps.get(c["id"])
         if c["id"] not in impl:
             continue
         try:
-            e, inv = model_expr(c["prog"], d, c["pairs"])
+            e, inv, R = model_expr(c["prog"], d, c["hists"])
         except (dl.ParseError, AssertionError, KeyError, IndexError) as ex:
             parse_errors[c["id"]] = repr(ex)
             continue
         invs[c["id"]] = inv
         groups.append([e])
         gids.append(c["id"])
-    # the Coq case files are keyed by the tag: two runs at the same time (C13 and C19 both wire this tie) must not share them
+        # specification oracle: the least model (naive_fix; c01_oracle_correct) of the rows the REAL program value held before each call
+        if positive(c["prog"]):
+            rules = dl.coq_list(dl.coq_rule(r, R) for r in c["prog"]["rules"])
+            keys, exprs = [], []
+            for k, h in enumerate(c["hists"]):
+                iv = impl[c["id"]][k]
+                ncall = len(calls_of(h["steps"]))
+                if "snaps" not in iv or len(iv["snaps"]) != 4 * ncall:
+                    continue
+                for j in range(ncall):
+                    pre = prog.rows_snap(iv["snaps"][4 * j])
+                    key = tuple(sorted(set(facts_of_input(pre, c["prog"]["rels"]))))
+                    if key not in keys:
+                        keys.append(key)
+                        exprs.append("naive_fix std_interp %d%%nat %s %s" % (FUEL, rules, dl.coq_facts(list(key), R)))
+            if exprs:
+                sgroups.append(exprs)
+                sgids.append(c["id"])
+                skeys[c["id"]] = keys
+    # the Coq case files are keyed by the tag: two runs at the same time must not share them
     vals = lib.coq_eval_groups("%s_%d" % (tag, os.getpid()), PRELUDE, groups, timeout=coq_timeout)
     t3 = time.time()
+    svals = lib.coq_eval_groups("%s_spec_%d" % (tag, os.getpid()), PRELUDE, sgroups, timeout=coq_timeout)
+    t4 = time.time()
     byid = dict(zip(gids, vals))
+    spec = {}
+    for cid, vs in zip(sgids, svals):
+        if vs is None:
+            continue
+        inv = invs[cid]
+        spec[cid] = {}
+        for key, v in zip(skeys[cid], vs):
+            spec[cid][key] = None if v == "None" else set((inv[r], tuple(t)) for (r, t) in v[1])
     out = []
     for c in cases:
         d = dumps.get(c["id"], {})
         out.append(dict(case=c, text=texts[c["id"]], dump=d, front_status=d.get("status"), front_errors=d.get("errors"), impl=impl.get(c["id"]),
-                        parse_error=parse_errors.get(c["id"]), model=byid.get(c["id"]), inv=invs.get(c["id"]),
+                        parse_error=parse_errors.get(c["id"]), model=byid.get(c["id"]), inv=invs.get(c["id"]), spec=spec.get(c["id"]),
                         skipped=(c["id"] in byid and byid[c["id"]] is None)))
-    return out, dict(front=t1 - t0, cargo_and_run=t2 - t1, coq=t3 - t2)
+    return out, dict(front=t1 - t0, cargo_and_run=t2 - t1, coq=t3 - t2, coq_spec=t4 - t3)
 
 
 # ------------------------------------------------------------------ comparison
@@ -404,11 +665,123 @@ def fmt_diff(missing, extra, wrong, exp_name):
     return "; ".join(parts)
 
 
+def describe(steps, upto=None):
+    """one-line description of a history (up to and including call number `upto`)"""
+    parts, ncall = [], 0
+    for st in steps:
+        if st[0] == "run":
+            parts.append("run()")
+            ncall += 1
+        elif st[0] == "timeout":
+            parts.append("run_timeout(fires at deadline check #%d)" % st[1])
+            ncall += 1
+        elif st[0] == "set":
+            parts.append("set the relations")
+        elif st[0] == "push":
+            parts.append("push rows into %s" % ", ".join(sorted(r for r, ts in st[1].items() if ts)))
+        else:
+            parts.append("overwrite %s" % ", ".join("%s (%d rows)" % (r, len(st[1][r])) for r in sorted(st[1])))
+        if upto is not None and ncall > upto:
+            break
+    return "; ".join(parts)
+
+
+def spec_check(rels, pre, post, ret, lm):
+    """the property's statement on the REAL data of one call: pre / post = {rel: rows in order}, lm = least model of pre (set of facts)
+    or None when the oracle ran out of fuel -> list of reasons"""
+    why = []
+    for name, _, _ in rels:
+        a, b = pre.get(name, []), post.get(name, [])
+        if b[:len(a)] != a:
+            why.append("the rows %s held before the call are not an unmodified prefix of its rows afterwards" % name)
+            continue
+        added = b[len(a):]
+        if len(set(added)) != len(added):
+            why.append("%s: a derived row was appended twice (%s)" % (name, sorted(t for t in set(added) if added.count(t) > 1)[:4]))
+        again = sorted(set(added) & set(a))
+        if again:
+            why.append("%s: rows already present were appended again: %s" % (name, again[:4]))
+    if lm is None:
+        return why
+    got = set(facts_of_input(post, rels))
+    under = sorted(got - lm)
+    if under:
+        why.append("tuples that are NOT derivable from the rows present before the call: %s" % under[:6])
+    if ret:
+        missing = sorted(lm - got)
+        if missing:
+            why.append("derivable tuples MISSING (not the least model of the rows present before the call): %s" % missing[:6])
+    return why
+
+
+def compare_indices(mism, stats, cs, decl, rows, real, m_idx, completed, after):
+    for name, ar, cols in decl:
+        f = field_name(name, cols)
+        full = (len(cols) == ar)
+        ix = real.get(f)
+        if ix is None:
+            raise lib.Infra("index field %s missing from the dump of %s" % (f, cs["id"]))
+        got = collections.Counter()
+        for key, vals in ix["ents"]:
+            for v in vals:
+                got[(tuple(key), tuple(v))] += 1
+        nkeys = len(ix["ents"])
+        stats["indices"] += 1
+        stats["entries"] += sum(got.values())
+        stats["absent_probes"] += ix["absent_probed"]
+        if not full and sum(got.values()) > 0:
+            stats["nonfull_nonempty"] += 1
+        # --- oracle on the real data only: after a COMPLETED call the index holds exactly the rows of the Vec field
+        exp = collections.Counter()
+        for t in rows.get(name, []):
+            exp[split_entry(cols, ar, t)] += 1
+        if full:
+            exp = collections.Counter(dict.fromkeys(exp, 1))
+        d = multiset_diff(exp, got)
+        bad_len = ix["len"] != nkeys
+        if completed and (any(d) or bad_len or not ix["get_ok"] or not ix["probe_ok"]):
+            why = fmt_diff(d[0], d[1], d[2], "rows of the Vec field")
+            if bad_len:
+                why += "; len_estimate %d but iter_all lists %d keys" % (ix["len"], nkeys)
+            if not ix["get_ok"]:
+                why += "; index_get(key) differs from the values iter_all lists under the key"
+            if not ix["probe_ok"]:
+                why += "; index_get is Some for a key iter_all does not list (or None for a listed one)"
+            mism.append(dict(case=dict(cs, index=f), impl=dict(index=ix, rows=sorted(rows.get(name, []))), model=None,
+                             spec="every index field of a relation holds exactly the rows of the relation (hash index: with multiplicity; full index: as a set)",
+                             kind="impl_violates_spec", known=None,
+                             what="index field %s %s does not agree with the %d rows of relation %s: %s" % (f, after, len(rows.get(name, [])), name, why.strip("; "))))
+        if not completed and any(d):
+            stats["stale_fields_after_interruption"] += 1
+            if not full and not got and rows.get(name):
+                stats["partial_index_emptied_by_interruption"] += 1
+        # --- against the model
+        if m_idx is not None:
+            ments = m_idx.get(f)
+            if ments is None:
+                raise lib.Infra("model has no index %s (%s)" % (f, cs["id"]))
+            mexp = collections.Counter()
+            for key, t in ments:
+                kk, vv = split_entry(cols, ar, tuple(t))
+                if tuple(key) != kk:
+                    kk = tuple(key)         # the model's own key is what is compared
+                mexp[(kk, vv)] += 1
+            mkeys = len({kv[0] for kv in mexp})
+            d = multiset_diff(mexp, got)
+            if any(d) or ix["len"] != mkeys:
+                why = fmt_diff(d[0], d[1], d[2], "model")
+                if ix["len"] != mkeys:
+                    why += "; len_estimate %d, model %d keys" % (ix["len"], mkeys)
+                mism.append(dict(case=dict(cs, index=f), impl=dict(index=ix), model=dict(entries=ments), spec=None, kind="model_differs", known=None,
+                                 what="index field %s %s differs from the model's stored index (%s, %s): %s" % (f, after, name, cols, why.strip("; "))))
+            stats["indices_vs_model"] += 1
+
+
 def compare_result(r, stats):
     mism = []
     c = r["case"]
     rels = c["prog"]["rels"]
-    base = dict(program=r["text"], id=c["id"], family=c["family"])
+    base = dict(program=r["text"], attrs=ATTRS if uses_timeout(c) else [], id=c["id"], family=c["family"], prog_ast=c["prog"])
     if r["front_status"] != "ok":
         mism.append(dict(case=dict(base), impl=dict(front=r["front_status"], errors=r["front_errors"]), model=None, spec="well-formed program: must compile",
                          kind="impl_violates_spec", known=None, what="front end rejects / panics on a well-formed generated program: %s %s" % (r["front_status"], r["front_errors"])))
@@ -428,100 +801,79 @@ def compare_result(r, stats):
             mism.append(dict(case=dict(base), impl=None, model="fact_idx_ok = %s" % ok_facts, spec=None, kind="model_differs", known=None,
                              what="IndexedEval.fact_idx_ok is false for an input fact (relation without a declared full index of the fact's arity)"))
     inv = r["inv"]
-    for k, (f0, f1) in enumerate(c["pairs"]):
-        cs = dict(base, F0=f0, F1=f1)
+    pos = positive(c["prog"])
+    for k, h in enumerate(c["hists"]):
+        steps = h["steps"]
+        calls = calls_of(steps)
+        cs = dict(base, history_kind=h["kind"], history=steps, history_text=describe(steps))
+        if h.get("modes"):
+            cs["overwrite_modes"] = h["modes"]
         iv = r["impl"][k]
-        if "snaps" not in iv or len(iv["snaps"]) != 4:
+        if "snaps" not in iv or len(iv["snaps"]) != 4 * len(calls):
             mism.append(dict(case=cs, impl=iv, model=None, spec=None, kind="impl_violates_spec", known=None,
                              what="implementation did not complete the history (compile error / panic / timeout): %s" % json.dumps(iv)[:600]))
             continue
         stats["histories"] += 1
+        stats["kind_" + h["kind"]] += 1
+        for md in h.get("modes", []):
+            stats["over_" + md] += 1
         mh = None
         if model is not None:
             mh = hist[k]
             if mh == "None":
                 mism.append(dict(case=cs, impl="completed", model="None (out of fuel)", spec=None, kind="model_differs", known=None,
-                                 what="IndexedEval.run_script_idx did not terminate within fuel %d" % FUEL))
+                                 what="IndexedHistory.run_history_idx did not terminate within fuel %d" % FUEL))
                 mh = None
             else:
                 mh = mh[1]
-        for j in range(2):
-            run = j + 1
-            rows = prog.rows_snap(iv["snaps"][2 * j])
-            real = {ix["field"]: ix for ix in iv["snaps"][2 * j + 1]["indices"]}
+        for j, (ckind, ck) in enumerate(calls):
+            pre = prog.rows_snap(iv["snaps"][4 * j])
+            ret = prog.rows_snap(iv["snaps"][4 * j + 1])["__ret"][0][0] == "true"
+            rows = prog.rows_snap(iv["snaps"][4 * j + 2])
+            real = {ix["field"]: ix for ix in iv["snaps"][4 * j + 3]["indices"]}
             stats["snapshots"] += 1
-            m_rows, m_idx = None, None
+            callname = "run()" if ckind == "run" else "run_timeout(fires at deadline check #%d)" % ck
+            after = "after call #%d = %s of [%s]" % (j + 1, callname, describe(steps, j))
+            csj = dict(cs, call=j + 1, rows_before_call=pre)
+            if ckind == "timeout":
+                stats["timeout_calls"] += 1
+                if not ret:
+                    stats["timeout_calls_interrupted"] += 1
+            # --- the property on the real data: least model of the rows present before the call
+            if pos:
+                stats["least_model_checks"] += 1
+                key = tuple(sorted(set(facts_of_input(pre, rels))))
+                lm = (r["spec"] or {}).get(key)
+                if lm is None:
+                    stats["least_model_oracle_unavailable"] += 1
+                elif ret and lm != set(key):
+                    stats["least_model_checks_deriving"] += 1
+                why = spec_check(rels, pre, rows, ret, lm)
+                if why:
+                    mism.append(dict(case=csj, impl=dict(returned=ret, rows_after_call={n: rows.get(n, []) for n, _, _ in rels}), model=None,
+                                     spec=dict(least_model_of_rows_before_call=sorted(lm) if lm is not None else None),
+                                     kind="impl_violates_spec", known=None, what="%s: %s" % (after, "; ".join(why))))
+            m_idx = None
             if mh is not None:
+                mret, mrows_l, midx_l = mh[j]
+                if mret is not ret:
+                    mism.append(dict(case=csj, impl=dict(returned=ret), model=dict(returned=mret), spec=None, kind="model_differs", known=None,
+                                     what="%s: implementation returned %s, the model %s" % (after, ret, mret)))
                 m_rows = collections.defaultdict(list)
-                for (rid, t) in mh[j][0]:
+                for (rid, t) in mrows_l:
                     m_rows[inv[rid]].append(tuple(t))
                 m_idx = {}
-                for (rid, cols, ents) in mh[j][1]:
+                for (rid, cols, ents) in midx_l:
                     m_idx[field_name(inv[rid], cols)] = ents
                 # rows: same set, same length
                 for name, _, _ in rels:
                     rr, mr = rows.get(name, []), m_rows.get(name, [])
                     if set(rr) != set(mr) or len(rr) != len(mr):
-                        mism.append(dict(case=dict(cs, run=run), impl={name: dict(len=len(rr), rows=sorted(set(rr)))}, model={name: dict(len=len(mr), rows=sorted(set(mr)))}, spec=None,
+                        mism.append(dict(case=csj, impl={name: dict(len=len(rr), rows=sorted(set(rr)))}, model={name: dict(len=len(mr), rows=sorted(set(mr)))}, spec=None,
                                          kind="model_differs", known=None,
-                                         what="rows of relation %s after run #%d: implementation %d rows, model %d rows; only in implementation %s; only in model %s" % (
-                                             name, run, len(rr), len(mr), sorted(set(rr) - set(mr))[:6], sorted(set(mr) - set(rr))[:6])))
-            for name, ar, cols in decl:
-                f = field_name(name, cols)
-                full = (len(cols) == ar)
-                ix = real.get(f)
-                if ix is None:
-                    raise lib.Infra("index field %s missing from the dump of %s" % (f, c["id"]))
-                got = collections.Counter()
-                for key, vals in ix["ents"]:
-                    for v in vals:
-                        got[(tuple(key), tuple(v))] += 1
-                nkeys = len(ix["ents"])
-                stats["indices"] += 1
-                stats["entries"] += sum(got.values())
-                stats["absent_probes"] += ix["absent_probed"]
-                if not full and sum(got.values()) > 0:
-                    stats["nonfull_nonempty"] += 1
-                # --- oracle on the real data only: the index holds exactly the rows of the Vec field
-                exp = collections.Counter()
-                for t in rows.get(name, []):
-                    exp[split_entry(cols, ar, t)] += 1
-                if full:
-                    exp = collections.Counter(dict.fromkeys(exp, 1))
-                d = multiset_diff(exp, got)
-                bad_len = ix["len"] != nkeys
-                if any(d) or bad_len or not ix["get_ok"] or not ix["probe_ok"]:
-                    why = fmt_diff(d[0], d[1], d[2], "rows of the Vec field")
-                    if bad_len:
-                        why += "; len_estimate %d but iter_all lists %d keys" % (ix["len"], nkeys)
-                    if not ix["get_ok"]:
-                        why += "; index_get(key) differs from the values iter_all lists under the key"
-                    if not ix["probe_ok"]:
-                        why += "; index_get is Some for a key iter_all does not list (or None for a listed one)"
-                    mism.append(dict(case=dict(cs, run=run, index=f), impl=dict(index=ix, rows=sorted(rows.get(name, []))), model=None,
-                                     spec="every index field of a relation holds exactly the rows of the relation (hash index: with multiplicity; full index: as a set)",
-                                     kind="impl_violates_spec", known=None,
-                                     what="index field %s after run #%d does not agree with the %d rows of relation %s: %s" % (f, run, len(rows.get(name, [])), name, why.strip("; "))))
-                # --- against the model
-                if m_idx is not None:
-                    ments = m_idx.get(f)
-                    if ments is None:
-                        raise lib.Infra("model has no index %s (%s)" % (f, c["id"]))
-                    mexp = collections.Counter()
-                    for key, t in ments:
-                        kk, vv = split_entry(cols, ar, tuple(t))
-                        if tuple(key) != kk:
-                            kk = tuple(key)         # the model's own key is what is compared
-                        mexp[(kk, vv)] += 1
-                    mkeys = len({kv[0] for kv in mexp})
-                    d = multiset_diff(mexp, got)
-                    if any(d) or ix["len"] != mkeys:
-                        why = fmt_diff(d[0], d[1], d[2], "model")
-                        if ix["len"] != mkeys:
-                            why += "; len_estimate %d, model %d keys" % (ix["len"], mkeys)
-                        mism.append(dict(case=dict(cs, run=run, index=f), impl=dict(index=ix), model=dict(entries=ments), spec=None, kind="model_differs", known=None,
-                                         what="index field %s after run #%d differs from IndexedEval's stored index (%s, %s): %s" % (f, run, name, cols, why.strip("; "))))
-                    stats["indices_vs_model"] += 1
+                                         what="rows of relation %s %s: implementation %d rows, model %d rows; only in implementation %s; only in model %s" % (
+                                             name, after, len(rr), len(mr), sorted(set(rr) - set(mr))[:6], sorted(set(mr) - set(rr))[:6])))
+            compare_indices(mism, stats, csj, decl, rows, real, m_idx, ret, after)
     return mism
 
 
@@ -547,7 +899,16 @@ def coverage_of(results, stats, timing):
         if any(a == 0 for _, a, _ in r["case"]["prog"]["rels"]):
             zero_ar += 1
     fams = collections.Counter(r["case"]["family"] for r in progs)
-    return dict(programs=len(progs), families=dict(fams), histories=stats["histories"], snapshots=stats["snapshots"], indices_compared=stats["indices"],
+    return dict(programs=len(progs), families=dict(fams), histories=stats["histories"],
+                programs_with_generate_run_timeout=sum(1 for r in progs if uses_timeout(r["case"])),
+                history_kinds={k[5:]: v for k, v in sorted(stats.items()) if k.startswith("kind_")},
+                overwrite_modes={k[5:]: v for k, v in sorted(stats.items()) if k.startswith("over_")},
+                calls=stats["snapshots"], timeout_calls=stats["timeout_calls"], timeout_calls_interrupted=stats["timeout_calls_interrupted"],
+                index_fields_stale_after_an_interruption=stats["stale_fields_after_interruption"],
+                partial_index_left_empty_by_an_interruption_while_rows_present=stats["partial_index_emptied_by_interruption"],
+                least_model_checks=stats["least_model_checks"], least_model_checks_where_the_call_had_to_derive=stats["least_model_checks_deriving"],
+                least_model_oracle_unavailable=stats["least_model_oracle_unavailable"],
+                snapshots=stats["snapshots"], indices_compared=stats["indices"],
                 indices_compared_with_model=stats["indices_vs_model"], entries_compared=stats["entries"], nonfull_nonempty_indices=stats["nonfull_nonempty"],
                 absent_keys_probed=stats["absent_probes"],
                 programs_with_2_nonfull_indices_on_a_relation=multi_nonfull, programs_with_multi_head_rules=multi_head, multi_head_rules=multi_head_rules, programs_with_zero_arity_relation=zero_ar,
@@ -571,12 +932,15 @@ def run_tie(tier="quick", seed=1, tag=None):
             r["model"] = None
         mism += compare_result(r, stats)
     cov = coverage_of(results, stats, {k: round(v, 1) for k, v in timing.items()})
-    distinct = len({(r["text"], json.dumps(r["case"]["pairs"], sort_keys=True)) for r in results if r["impl"] is not None})
+    distinct = len({(r["text"], json.dumps(h["steps"], sort_keys=True)) for r in results if r["impl"] is not None for h in r["case"]["hists"]})
     return dict(evaluations=stats["histories"], distinct_nontrivial=distinct, mismatches=mism, coverage=cov,
                 rule="programs: gen_dl.gen_program / gen_strat_program (aggregates, negation) + own families multi_index (one relation read through 2-4 column sets, recursion) "
-                     "and multi_head (2-3 heads per rule, a zero-arity relation); history set F0; run; push F1; run with duplicate rows in some F0 / F1 and F1 partly already present; "
-                     "after every run EVERY index field (keys, per-key value multisets, len_estimate, index_get) vs the stored indices of IndexedEval.run_script_idx and vs the rows; "
-                     "distinct = distinct (program, inputs)")
+                     "and multi_head (2-3 heads per rule, a zero-arity relation), two thirds of them with #![generate_run_timeout] (run() is then run_timeout(MAX); the others exercise the plain run() body with push / overwrite histories); HISTORIES of one program value: push (set F0; run; push F1; run, duplicate rows in some F0 / F1, "
+                     "F1 partly present), overwrite (set; run; 1-2 relations the rules read get OTHER rows: same count / shifted / columns swapped / permuted / fewer / more / none, derived relations left, "
+                     "cleared or reset; run), resume (set; run_timeout interrupted at deadline check 1..3 [twice]; run), rerun_timeout (set; run; push or overwrite; run_timeout interrupted; run), "
+                     "timeout_overwrite (set; run_timeout interrupted; overwrite; run); around every call: rows before, flag, rows after and EVERY index field (keys, per-key value multisets, len_estimate, "
+                     "index_get) vs IndexedHistory.run_history_idx (after interrupted calls too) and, positive programs, vs the least model (naive_fix) of the rows the real program value held before the call; "
+                     "distinct = distinct (program, history)")
 
 
 def main(argv=None):
@@ -592,6 +956,10 @@ def main(argv=None):
         cov["programs_with_2_nonfull_indices_on_a_relation"], cov["programs_with_multi_head_rules"], cov["multi_head_rules"], cov["programs_with_zero_arity_relation"], cov["families"]))
     print("  indices per relation %s; non-empty non-full indices %d; absent keys probed %d; model too slow (skipped) %d" % (
         cov["indices_per_relation_histogram"], cov["nonfull_nonempty_indices"], cov["absent_keys_probed"], cov["programs_model_too_slow"]))
+    print("  history kinds %s; overwrite modes %s" % (cov["history_kinds"], cov["overwrite_modes"]))
+    print("  calls %d; run_timeout calls %d (%d interrupted; index fields stale afterwards %d, of them non-full fields left EMPTY while the relation has rows %d); least-model checks %d (%d where the call had to derive, oracle unavailable %d)" % (
+        cov["calls"], cov["timeout_calls"], cov["timeout_calls_interrupted"], cov["index_fields_stale_after_an_interruption"], cov["partial_index_left_empty_by_an_interruption_while_rows_present"],
+        cov["least_model_checks"], cov["least_model_checks_where_the_call_had_to_derive"], cov["least_model_oracle_unavailable"]))
     print("  wall %.1fs (%s)" % (time.time() - t0, cov["wall"]))
     ms = res["mismatches"]
     # every mismatch is in res["mismatches"]; printed: per program the first few (index fields first), for the first programs
@@ -606,8 +974,8 @@ def main(argv=None):
         for m in lst[:PRINT_PER_PROGRAM]:
             shown += 1
             print("   kind=%s %s" % (m["kind"], m["what"]))
-            if "F0" in m["case"]:
-                print("      F0=%s F1=%s" % (json.dumps(m["case"]["F0"]), json.dumps(m["case"]["F1"])))
+            if "history" in m["case"]:
+                print("      history=%s" % json.dumps(m["case"]["history"]))
     if len(ms) > shown:
         print("... %d more mismatches (%d programs affected)" % (len(ms) - shown, len(by_prog)))
     print("mismatches: %d (model_differs %d, impl_violates_spec %d)" % (len(ms), sum(1 for m in ms if m["kind"] == "model_differs"), sum(1 for m in ms if m["kind"] == "impl_violates_spec")))
